@@ -8,7 +8,7 @@
    from the headers.  `hall s` = all items stored in all generations; `spec_step` = the abstract finite map. *)
 From Coq Require Import ZArith List Permutation.
 From C01 Require Import HashModel HashSpec HashProofs HashInst HashInstProofs BucketFind.
-From C01 Require IterMachine.
+From C01 Require IterMachine KindFacts Gen_UnlimP Gen_LimP1.
 From C01 Require Gen_LimP4 Gen_Open2N2 Gen_Open2N2w Gen_OpenN1.
 Import ListNotations.
 Local Open Scope Z_scope.
@@ -279,3 +279,41 @@ Theorem C01_bucket_find_complete_all_histories :
       find_sh (fst st ++ empties) (snd st) (calcSH (h k)) k i = Some (bfind k (snd st) i).
 Proof. exact bucket_find_complete_all_histories. Qed.
 Print Assumptions C01_bucket_find_complete_all_histories.
+
+(* ---------- round 4 ---------- *)
+(* Since round 4 `step` (ORemoveIf) and `wstep` (WMergeAB) ARE the code's loops over the iterator machine:
+     it = GetBegin(); while (it) { if (filter(item)) it = Remove(it); else ++it; }            (HashModel.rf_loop)
+     it = GetBegin(); while (it) { if (!dst.InsertCrt(key, extract(it)).inserted) ++it; }      (HashModel.merge_m)
+   so C01_step_refines / C01_hash_refines_all_histories / C01_world_step_refines / C01_momo_world_traces_all_histories above speak
+   about that loop structure.  Remove(filter) as the machine loop removes exactly the matching items and counts them: *)
+Theorem C01_remove_if_machine_spec :
+  forall B b0 decode upd_bound h cap unlimited wf0 wfThr start next logStart shift maxLog Binv,
+    ModelOK B b0 decode upd_bound cap unlimited wfThr start next logStart shift maxLog Binv ->
+    forall s p s' c, Inv B b0 decode h cap unlimited wf0 start next maxLog Binv s -> hremove_if_m B b0 wf0 s p = (s', c) ->
+      Inv B b0 decode h cap unlimited wf0 start next maxLog Binv s' /\
+      Permutation (hall B s') (filter (ListAux.negp p) (hall B s)) /\
+      c = Z.of_nat (length (hall B s)) - Z.of_nat (length (hall B s')).
+Proof. exact remove_if_machine_spec. Qed.
+Print Assumptions C01_remove_if_machine_spec.
+
+(* the iterator handed back by Remove(iter) is again a valid position (or end) of the new container *)
+Theorem C01_iter_remove_valid :
+  forall (B : Type) (b0 : B) (wf0 : bool) (s : hset B) gi bi p,
+    IterMachine.valid B s (Some (gi, bi, p)) ->
+    IterMachine.valid B (fst (it_remove B b0 wf0 s (Some (gi, bi, p)))) (snd (it_remove B b0 wf0 s (Some (gi, bi, p)))).
+Proof. exact IterMachine.it_remove_valid. Qed.
+Print Assumptions C01_iter_remove_valid.
+
+(* per-kind facts against regenerated leaves: UnlimP is never full / never was full / max probe 0 (= model parameters
+   unlimited, wf0 = false, bound kind 1); LimP1's state byte decoders and IsFull <-> count = maxCount *)
+Theorem C01_unlimp_facts : Gen_UnlimP.IsFull = false /\ Gen_UnlimP.WasFull = false /\ Gen_UnlimP.GetMaxProbe = 0.
+Proof. exact KindFacts.unlimp_facts. Qed.
+Print Assumptions C01_unlimp_facts.
+
+Theorem C01_limp1_state_decoders :
+  forall maxCount idx count, 0 <= idx < 16 -> 0 <= count < 16 ->
+    Gen_LimP1.pvGetCount (idx * 16 + count) = count /\
+    Gen_LimP1.pvGetMemPoolIndex (idx * 16 + count) = idx /\
+    (Gen_LimP1.IsFull maxCount (idx * 16 + count) = true <-> count = maxCount).
+Proof. exact KindFacts.limp1_state_decoders. Qed.
+Print Assumptions C01_limp1_state_decoders.
